@@ -252,6 +252,12 @@ def _l3b_two_contigs(n: int, k0: int, k1: int, k2: int, k3: int, every: int, poo
     return got == sorted(exp.values())
 
 
+
+def preflight():
+    """FakeRead against real pysam records of the repository's test BAM files, accessor by accessor"""
+    from stubs.validate import validate_fakeread
+    return validate_fakeread(300)
+
 _T = {'quick': 240, 'thorough': 1200}
 LEMMAS = [
     dict(name='L1_nla_pairwise', fn='_l1_nla_pair', engine='E1', timeout=_T, replay='replay.C06:replay',
